@@ -871,3 +871,17 @@ Lemma kg_read_total_explicit : forall E, z_in 59 (delims E) = true ->
   | OOF => False
   end.
 Proof. intros E H fuel rn ign s Hf. exact (kg_read_total E H fuel rn ign s Hf). Qed.
+
+Lemma expr_total_explicit : forall E, z_in 59 (delims E) = true -> comment_guard E = true ->
+  forall fuel ign s, (fuel >= 6 * length s + 4)%nat ->
+  match expr E fuel ign s with
+  | Ok p => (length (fst p) <= length s)%nat /\
+            (is_none (snd p) = false -> (length (fst p) < length s)%nat) /\
+            (is_none (snd p) = true -> fst p = [])
+  | Err _ => True
+  | OOF => False
+  end.
+Proof.
+  intros E H1 H2 fuel ign s Hf.
+  exact (proj1 (proj2 (parse_total E H1 H2 fuel)) ign s Hf).
+Qed.
